@@ -117,6 +117,12 @@ func (c *BaseClient) Connect(ctx context.Context, clientID string, opts ...Conne
 	defer c.muConnecting.Unlock()
 	c.init()
 
+	// Set before the reader starts: it looks at chConnAck under the signaller's own lock.
+	chConnAck := make(chan *pktConnAck, 1)
+	c.mu.Lock()
+	c.sig.chConnAck = chConnAck
+	c.mu.Unlock()
+
 	go func() {
 		err := c.serve()
 		simYield("base.afterServe")
@@ -132,11 +138,6 @@ func (c *BaseClient) Connect(ctx context.Context, clientID string, opts ...Conne
 		c.connStateUpdate(StateClosed)
 		close(c.connClosed)
 	}()
-
-	chConnAck := make(chan *pktConnAck, 1)
-	c.mu.Lock()
-	c.sig.chConnAck = chConnAck
-	c.mu.Unlock()
 
 	pkt := (&pktConnect{
 		ProtocolLevel: o.ProtocolLevel,
